@@ -145,4 +145,42 @@ theorem d2rExpinv_hasDerivAt (a : Vec ℝ 3) (h : Scalar.eps2 < a 2 * a 2)
     rw [C04SE2.dr_expinv_closed _ (not_lt.2 ht.le)]
     simp only [poly2, Mat.of_get, Pi.add_apply, Pi.mul_apply, Function.comp]
 
+/-! ### the series-branch constant `dA_dwz = 1/360` of `d2r_expinv` (observation): induced error -/
+
+theorem ad_sq (a : Vec ℝ 3) :
+    mmul (SE2.ad a) (SE2.ad a)
+      = mat3 (-(a 2 * a 2)) 0 (a 2 * a 0) 0 (-(a 2 * a 2)) (a 2 * a 1) 0 0 0 := by
+  ext i j
+  fin_cases i <;> fin_cases j <;>
+    simp only [C04Alg.mmul3, ad_00, ad_01, ad_02, ad_10, ad_11, ad_12, ad_20, ad_21, ad_22, mat3,
+      Mat.of_get, Fin.zero_eta, Fin.mk_one, Fin.reduceFinMk, Fin.isValue] <;> ring
+
+theorem abs_lt_of_series {θ : ℝ} (h : θ * θ < Scalar.eps2) : |θ| ≤ 1 / 10000 := by
+  rw [eps2_real] at h
+  have h2 : |θ| * |θ| < 1 / 100000000 := by rw [abs_mul_abs_self]; exact h
+  by_contra hc
+  rw [not_le] at hc
+  have := abs_nonneg θ
+  nlinarith
+
+/-- In the series branch the code adds `(1/360)·ad²[j,r]` to column `3j+2` where the derivative of its
+    own `A = 1/12 + wz²/720` requires `(wz/360)·ad²[j,r]`; the difference is bounded by
+    `|ad²[j,r]|/359`, and `ad² = [[−θ², 0, θx],[0, −θ², θy],[0,0,0]]` is `O(θ·|a|)`. -/
+theorem d2rExpinv_series_error (a : Vec ℝ 3) (h : a 2 * a 2 < Scalar.eps2) (j r : Fin 3) :
+    |(SE2.d2rExpinvCoef (a 2)).2 * (mmul (SE2.ad a) (SE2.ad a)) j r
+        - (a 2 / 360) * (mmul (SE2.ad a) (SE2.ad a)) j r|
+      ≤ |(mmul (SE2.ad a) (SE2.ad a)) j r| / 359 := by
+  have hco : (SE2.d2rExpinvCoef (a 2)).2 = 1 / 360 := by
+    simp only [SE2.d2rExpinvCoef, if_pos h, Nat.cast_one, Nat.cast_ofNat]
+  have hθ := abs_lt_of_series h
+  obtain ⟨hθ1, hθ2⟩ := abs_le.1 hθ
+  rw [hco, ← sub_mul, abs_mul]
+  have hc : |1 / 360 - a 2 / 360| ≤ 1 / 359 := by
+    rw [abs_le]
+    constructor <;> linarith
+  calc |1 / 360 - a 2 / 360| * |(mmul (SE2.ad a) (SE2.ad a)) j r|
+      ≤ 1 / 359 * |(mmul (SE2.ad a) (SE2.ad a)) j r| :=
+        mul_le_mul_of_nonneg_right hc (abs_nonneg _)
+    _ = |(mmul (SE2.ad a) (SE2.ad a)) j r| / 359 := by ring
+
 end C05SE2
